@@ -933,11 +933,26 @@ package geom
 
 //@ pred ringEnvs(p []Path, bounds []*Bounds) = len(bounds) == len(p) && (forall k int :: 0 <= k && k < len(p) ==> bounds[k] != nil && biteq(*bounds[k], foldPts(emptyB(), p[k], len(p[k]))))
 
+// ringW(r, i, p): the weight area() gives ring i of p (its area, negated when the ring is a hole;
+// a function of the ring, its position and the polygon — the envelopes passed along are derived
+// from p). rcX / rcY: the ring's own centroid. polyA/polyMX/polyMY and mpA/mpMX/mpMY: the weight and
+// moment sums of the multi-polygon centroid, ring by ring and polygon by polygon.
+//@ spec ringW(r []Point, i int, p []Path) float64
+//@ spec rcX(r []Point) float64 = mxTo(r, len(r) - 1) / (6 * sa(r))
+//@ spec rcY(r []Point) float64 = myTo(r, len(r) - 1) / (6 * sa(r))
+//@ spec polyA(p []Path, k int) float64 decreases k = k <= 0 ? 0 : polyA(p, k-1) + ringW(p[k-1], k-1, p)
+//@ spec polyMX(p []Path, k int) float64 decreases k = k <= 0 ? 0 : polyMX(p, k-1) + rcX(p[k-1]) * ringW(p[k-1], k-1, p)
+//@ spec polyMY(p []Path, k int) float64 decreases k = k <= 0 ? 0 : polyMY(p, k-1) + rcY(p[k-1]) * ringW(p[k-1], k-1, p)
+//@ spec mpA(mp []Polygon, n int) float64 decreases n = n <= 0 ? 0 : mpA(mp, n-1) + polyA(mp[n-1], len(mp[n-1]))
+//@ spec mpMX(mp []Polygon, n int) float64 decreases n = n <= 0 ? 0 : mpMX(mp, n-1) + polyMX(mp[n-1], len(mp[n-1]))
+//@ spec mpMY(mp []Polygon, n int) float64 decreases n = n <= 0 ? 0 : mpMY(mp, n-1) + polyMY(mp[n-1], len(mp[n-1]))
+
 //@ func area
 //@   prop C03
 //@   mode real
 //@   requires [idx] 0 <= i && i < len(p)
 //@   requires [envs] ringEnvs(p, bounds)
+//@   defines [weight] result == ringW(r, i, p)
 //@   ensures [magnitude] result == abs(sa(r)) || result == -abs(sa(r)) || result == 0
 //@   ensures [single] len(p) == 1 ==> result == abs(sa(r))
 //@   modifies nothing
@@ -952,11 +967,14 @@ package geom
 //@ func (mp MultiPolygon) Centroid
 //@   prop C03
 //@   mode real
+//@   ensures [weighted_mean_of_ring_centroids] result.X == mpMX(mp, len(mp)) / mpA(mp, len(mp)) && result.Y == mpMY(mp, len(mp)) / mpA(mp, len(mp))
 //@   modifies nothing
 //@   loop 1 `for _, p := range mp`
 //@     invariant [polys] 0 <= #1 && #1 <= len(mp)
+//@     invariant [sums] A == mpA(mp, #1) && xA == mpMX(mp, #1) && yA == mpMY(mp, #1)
 //@   loop 2 `for i, r := range p`
-//@     invariant [rings] 0 <= #2 && #2 <= len(p) && ringEnvs(p, b)
+//@     invariant [rings] 0 <= #2 && #2 <= len(p) && ringEnvs(p, b) && #1 < len(mp) && p == mp[#1]
+//@     invariant [sums] A == mpA(mp, #1) + polyA(p, #2) && xA == mpMX(mp, #1) + polyMX(p, #2) && yA == mpMY(mp, #1) + polyMY(p, #2)
 //@   loop 3 `for i := 0; i < len(r)-1; i++`
 //@     invariant [moments] 0 <= #3 && (len(r) >= 1 ? #3 <= len(r) - 1 : #3 == 0) && cx == mxTo(r, #3) && cy == myTo(r, #3)
 //@     decreases len(r) - #3
